@@ -59,6 +59,16 @@ def run(tier, seed, replay):
                     % (n, name, res["sig"], json.dumps(ex)[:900]), {"op": name, "examples": ex, "sig": res["sig"]})
     if res["panics"]:
         v.violation("board:panic", "%d panics while replaying board transitions" % res["panics"], res["first"][:3])
+    # every DAC byte with the input just below / at / just above the DAC voltage (both comparators, temperature, both orders)
+    sw = vlib.tlc(os.path.join(vlib.SPEC, "mc", "MC_BoardSweep.tla"), os.path.join(vlib.SPEC, "mc", "MC_BoardSweep.cfg"), timeout=1800)
+    if sw.violated:
+        raise vlib.ToolError("Board.tla violates the comparator law in MC_BoardSweep (spec bug): %s" % sw.out[-2000:])
+    swcases = [{"pre": [{"op": "new"}], "h": c["h"], "s": c["s"]} for c in vlib.tlc_replay_lines(sw.out)]
+    swres = vlib.replay_cases(swcases, "c14-sweep")
+    if swres["mismatches"]:
+        f = swres["first"][0]
+        v.violation("board:dac-sweep", "%d of %d (DAC byte, input at / around the DAC voltage) cases differ from Board.tla, e.g. ops %s: %s"
+                    % (swres["mismatches"], swres["cases"], json.dumps(f["case"]["h"]), f["diff"][:3]), f)
     # clamp rule over f32 bit patterns (TLA+ has no floats: class table checked on the Rust side)
     step = 4099 if tier == "quick" else 1
     cs = vlib.vh_json(["clamp-sweep", str(step)], timeout=3000)
@@ -84,12 +94,12 @@ def run(tier, seed, replay):
         "traces_validated_against_impl": res["transitions"] + len(traces),
         "samples": [{"alphabet_size": len(cases[0]["ops"]), "first_ops": cases[0]["ops"][:4]},
                     {"state_sig": states[len(states) // 2]["pre"], "successor_sig_of_first_action": states[len(states) // 2]["rows"][0]}],
-        "board_states_restored": res["states"], "transitions_replayed": res["transitions"],
+        "board_states_restored": res["states"], "dac_sweep_cases": swres["cases"], "transitions_replayed": res["transitions"],
         "clamp_patterns": cs["patterns"], "clamp_classes_nan_neg_high_inrange": cs["classes_nan_neg_high_inrange"],
         "random_trace_events_validated": nev,
         "exhaustive": False,
         "rule": "TLC BFS to depth 3 over the alphabet (all 8 sources x 2 polarities, boundary bytes/millivolts, non-finite classes) with "
-                "StateInv and StepOK for every action at every state; every state restored on the real board and every action "
+                "StateInv and StepOK for every action at every state; all 256 DAC bytes x input 1 mV below / at / above the DAC voltage x 3 input kinds x both orders; every state restored on the real board and every action "
                 "replayed (full board signature + reads of F0-F3); clamp rule swept over f32 bit patterns (step %d); random "
                 "interleavings validated event by event with StateInv" % step,
     }
